@@ -369,18 +369,56 @@ func checkC06(e *env) {
 		}
 	}
 	e.flush()
-	// known finding F7: levels above 32
+	above32(e, true)
+}
+
+// above32: tile matrices whose pixel level exceeds 32 (WebMercatorQuad ids 21..24), triangles in the north-east half of the extent, where
+// pixel addresses need more than 32 bits. Such an address cannot be encoded (C17): the unchanged code reports it — by panicking in
+// MustToZ, which for C06 is known finding F7. What must never happen is a silent answer built from wrapped-around keys: when the call
+// returns, every coordinate has to be within half a pixel of one of the three input vertices.
+func above32(e *env, f7 bool) {
+	r := e.res
 	wm := newReal("WebMercatorQuad", 24, false)
-	for i := 0; i < 5; i++ {
-		c := &snapCase{gs: wm, tmids: []int{21 + i%4}, tag: "above-level-32"}
+	for i := 0; i < 12; i++ {
+		id := 21 + i%4
+		c := &snapCase{gs: wm, tmids: []int{id}, tag: "above-level-32"}
 		x, y := 550000+float64(i)*10, 6800000+float64(i)*7
-		c.setPoly(geom.Polygon{{{x, y}, {x + 5, y}, {x + 3, y + 4}}})
+		if i >= 5 { // elsewhere in the north-east half, and astride the address 2^32
+			x, y = float64(1+i)*1.3e6, float64(12-i)*1.1e6
+		}
+		tri := geom.Polygon{{{x, y}, {x + 5, y}, {x + 3, y + 4}}}
+		c.setPoly(tri)
 		sr := c.runImpl()
-		r.count("snap-above-32", fmt.Sprintf("WebMercatorQuad id %d triangle at (%v,%v)", c.tmids[0], x, y), true)
-		if sr.panicMsg != "" && panicClass(sr.panicMsg) == "cannot make Z" {
-			r.violation(Violation{Oracle: "no-panic-for-in-grid-polygon", Op: fmt.Sprintf("WebMercatorQuad id %d, triangle at (%v,%v)", c.tmids[0], x, y), Impl: sr.String(), Detail: sr.panicMsg, Known: "F7"})
-		} else if sr.panicMsg != "" || sr.hang {
+		op := fmt.Sprintf("WebMercatorQuad id %d triangle at (%v,%v)", id, x, y)
+		r.count("snap-above-32", op, true)
+		switch {
+		case sr.panicMsg != "" && panicClass(sr.panicMsg) == "cannot make Z":
+			if f7 {
+				r.violation(Violation{Oracle: "no-panic-for-in-grid-polygon", Op: fmt.Sprintf("WebMercatorQuad id %d, triangle at (%v,%v)", id, x, y), Impl: sr.String(), Detail: sr.panicMsg, Known: "F7"})
+			}
+		case sr.panicMsg != "" || sr.hang:
 			r.violation(Violation{Oracle: "no-panic-for-in-grid-polygon", Op: c.describe(), Impl: sr.String(), Detail: sr.panicMsg})
+		default:
+			// it returned: then from properly encoded keys
+			pix := wm.tms.TileMatrices[id].CellSize / 16
+			res := snap.SnapPolygon(tri, wm.tms, []int{id}, c.cfg)
+			for _, pg := range res[id] {
+				for _, rg := range pg {
+					for _, v := range rg {
+						near := false
+						for _, u := range tri[0] {
+							if math.Abs(v[0]-u[0]) <= pix/2*1.001 && math.Abs(v[1]-u[1]) <= pix/2*1.001 {
+								near = true
+							}
+						}
+						if !near {
+							r.violation(Violation{Oracle: "address-beyond-32-bits-reported-not-wrapped", Op: op, Impl: fmt.Sprintf("returned vertex (%v, %v)", v[0], v[1]),
+								Detail: fmt.Sprintf("not within half a pixel (%v) of any vertex of the triangle: the pixel keys of this level need more than 32 bits per axis and were not reported as not encodable", pix)})
+							return
+						}
+					}
+				}
+			}
 		}
 	}
 }
@@ -657,7 +695,7 @@ func checkC09(e *env) {
 	r := e.res
 	r.Rule = "valid polygons inside synthetic grids (zero, negative and positive origins) and a NetherlandsRDNewQuad window at the extent's corner, with one vertex moved outside the half-open extent, or (a quarter of the cases) the whole polygon translated beyond a side or corner, by " +
 		"1 unit (1e-10), res-1, res, res+1 units and random distances, on each side and corner (left/bottom: just below min; right/top: exactly max and beyond), both values of ignore-outside-grid; " +
-		"expected: panic with OutsideGridError by default, empty result with the flag; addr: InsertPoint on grids with various origins against the model's floor-division address. " +
+		"expected: panic with OutsideGridError by default, empty result with the flag; snap-outside-extent: on every accepted built-in set (ids 0, middle, deepest <= level 32) a vertex on and a hair beyond each border of the set's own bounding box, and far away (9.3e8, 1e12, +-Inf);  addr: InsertPoint on grids with various origins against the model's floor-division address. " +
 		"Non-trivial = the vertex is less than one pixel outside, or exactly on the right/top border; distinct by op text."
 	initWindows()
 	type og struct {
@@ -790,6 +828,50 @@ func checkC09(e *env) {
 		}
 	}
 	e.flush()
+	// the extent is the tile matrix set's own (its bounding box), not the integer grid the index derives from it: on every accepted built-in
+	// set a vertex on the (exclusive) right/top border, a hair (1e-9, i.e. ten integer units, or four ulp) and a millimetre beyond each border, and far away (beyond what fits an int64
+	// of 1e-10 units, and infinite) must be rejected — both values of the flag
+	for _, name := range acceptedBuiltins() {
+		gs := newReal(name, 0, false)
+		gs.levelDiff = uint(math.Log2(float64(gs.tms.TileMatrices[0].TileWidth))) + 4
+		top := 0
+		for id := range gs.tms.TileMatrices {
+			if id > top && uint(id)+gs.levelDiff <= 32 {
+				top = id
+			}
+		}
+		bl, tr, err := gs.tms.MatrixBoundingBox(0)
+		if err != nil {
+			continue
+		}
+		for _, id := range []int{0, top / 2, top} {
+			pix := gs.tms.TileMatrices[id].CellSize / 16
+			ax, ay := tr[0]-10*pix, tr[1]-10*pix // a triangle in the top right corner of the extent, one vertex replaced
+			if float64(uint64(1)<<(uint(id)+gs.levelDiff)) < 24 {
+				ax, ay = bl[0]+pix/2, bl[1]+pix/2
+			}
+			bad := [][2]float64{{tr[0], ay + 3*pix}, {tr[0] + math.Max(1e-9, 4*(math.Nextafter(math.Abs(tr[0]), math.Inf(1))-math.Abs(tr[0]))), ay + 3*pix}, {tr[0] + 0.001, ay + 3*pix}, {ax + 3*pix, tr[1]}, {ax + 3*pix, tr[1] + 0.001},
+				{bl[0] - 0.001, ay}, {bl[0] - math.Max(1e-9, 4*(math.Nextafter(math.Abs(bl[0]), math.Inf(1))-math.Abs(bl[0]))), ay}, {ax, bl[1] - 0.001}, {tr[0], tr[1]},
+				{9.3e8, ay}, {-9.3e8, ay}, {ax, 1e12}, {math.Inf(1), ay}, {ax, math.Inf(-1)}}
+			for bi, b := range bad {
+				for _, iog := range []bool{false, true} {
+					c := &snapCase{gs: gs, tmids: []int{id}, tag: "outside-the-extent-of-the-set"}
+					c.cfg.IgnoreOutsideGrid = iog
+					c.setPoly(geom.Polygon{{{ax, ay}, {ax + 5*pix, ay}, b}})
+					sr := c.runImpl()
+					r.count("snap-outside-extent", fmt.Sprintf("%s id %d vertex %d iog=%v", name, id, bi, iog), true)
+					want := "panic outside-grid"
+					if iog {
+						want = "ok "
+					}
+					if got := sr.String(); got != want {
+						r.violation(Violation{Oracle: "outside-grid-rejected", Op: fmt.Sprintf("%s id %d, triangle (%v,%v) (%v,%v) (%v,%v), ignore-outside-grid=%v", name, id, ax, ay, ax+5*pix, ay, b[0], b[1], iog),
+							Impl: clip(got, 300), Detail: fmt.Sprintf("the last vertex is outside the half-open extent [%v,%v) x [%v,%v) of the tile matrix set; expected %q", bl[0], tr[0], bl[1], tr[1], want)})
+					}
+				}
+			}
+		}
+	}
 	// addr: InsertPoint against the model
 	for it := 0; it < e.n(20000, 400000); it++ {
 		o := grids[e.rng.Intn(len(grids))]
